@@ -416,6 +416,9 @@ func CR3(p CR3Parts, extra int) []*Box {
 		meta.Children[5].Large, meta.Children[7].Large, moov.Large = true, true, true // CMT2, CMT4, moov
 	}
 	top := []*Box{Ftyp("crx ", 1, "crx ", "isom"), moov}
+	if extra == 8 { // a long list of compatible brands
+		top[0] = Ftyp("crx ", 1, "crx ", "isom", "mif1", "iso2", "miaf", "heic", "avif", "msf1", "iso4", "iso5", "iso6", "mp41")
+	}
 	switch extra {
 	case 1:
 		top = append(top, &Box{Type: "free", Payload: raw(make([]byte, 24))})
